@@ -10,10 +10,13 @@
 mod c02;
 mod c10;
 mod c12;
+mod c14;
+mod c14run;
 mod c15;
 mod driver;
 mod pools;
 mod rng;
+mod sched;
 mod stream;
 
 /// Expand `$body` with `$c` bound to the generic check for property `$id`.
@@ -71,6 +74,7 @@ struct Tier {
 
 fn tier_for(id: &str) -> Tier {
     match id {
+        "C14" => Tier { quick_runs: 20_000, thorough_budget_s: 300.0, thorough_max_runs: 1_000_000_000 },
         "C12" => Tier { quick_runs: 300_000, thorough_budget_s: 300.0, thorough_max_runs: 2_000_000_000 },
         _ => Tier { quick_runs: 100_000, thorough_budget_s: 300.0, thorough_max_runs: 1_000_000_000 },
     }
@@ -134,11 +138,16 @@ fn run_generic<C: Check>(check: &C, cfg: &BatchCfg, extra: Value) -> i32 {
 fn main() {
     let args: Vec<String> = std::env::args().collect();
     install_quiet_panic_hook();
+    text2num::verif::set_yield_hook(sched::lib_hook);
     let code = match args.get(1).map(|s| s.as_str()) {
         Some("run") => {
             let id = args.get(2).cloned().unwrap_or_default();
             let tier = args.get(3).cloned().unwrap_or_else(|| "quick".into());
             let cfg = batch_cfg(&id, &tier, &args);
+            if id == "C14" {
+                let (corpus, pristine) = if tier == "thorough" { (8000, 64) } else { (1500, 16) };
+                std::process::exit(c14run::run_c14(&cfg, corpus, pristine));
+            }
             dispatch!(id.as_str(), c => run_generic(c, &cfg, json!({})), {
                 eprintln!("unknown property {id}");
                 2
@@ -150,12 +159,23 @@ fn main() {
             let mut cfg = batch_cfg(&id, "quick", &args);
             cfg.runs = runs;
             cfg.hashes_only = true;
+            if id == "C14" {
+                let calls = c14::gen_corpus(cfg.seed, 300);
+                let expected = c14::reference_results(&calls);
+                let chk = c14::C14 { corpus: c14::Corpus { calls, expected } };
+                let o = run_batch(&chk, &cfg);
+                std::process::exit(flush_and_code(&o.out_lines, 0));
+            }
             let o = dispatch!(id.as_str(), c => run_batch(c, &cfg), {
                 eprintln!("unknown property {id}");
                 std::process::exit(2)
             });
             flush_and_code(&o.out_lines, 0)
         }
+        Some("reference") => c14run::reference_main(
+            args.get(2).map(|s| s.as_str()).unwrap_or(""),
+            args.get(3).map(|s| s.as_str()).unwrap_or(""),
+        ),
         Some("replay") => {
             let path = args.get(2).cloned().unwrap_or_default();
             let doc: Value = match std::fs::read_to_string(&path).ok().and_then(|s| serde_json::from_str(&s).ok()) {
@@ -166,6 +186,9 @@ fn main() {
                 }
             };
             let p = doc["property"].as_str().unwrap_or("").to_string();
+            if p == "C14" {
+                std::process::exit(c14run::replay_c14(&doc));
+            }
             dispatch!(p.as_str(), c => replay_file(c, &doc), {
                 eprintln!("unknown property in replay file: {p}");
                 2
